@@ -235,6 +235,24 @@ class Cli:
                                 if first2:
                                     self.compare(first2, "resplit%d_%d" % (m, m2), cmd + ["&&"] + rcmd)
                             shutil.rmtree(rd, ignore_errors=True)
+                        # ... and split IN PLACE (no --out-dir, --overwrite): the output parts carry the names of the input
+                        # parts.  Either the result is right or the command refuses and the input is untouched (fix
+                        # e1d6a3e9: the first output part truncated the input before anything was read)
+                        ip = os.path.join(self.box, "ip%d" % m)
+                        shutil.copytree(d, ip)
+                        before = {f: open(os.path.join(ip, f), "rb").read() for f in os.listdir(ip)}
+                        icmd = ["split", os.path.join("ip%d" % m, "src.part1.pna"), "--max-size", str(52 + L + 9), "--overwrite"]
+                        rc, out = self.sh(icmd)
+                        self.c.hist["cli split in place"] = self.c.hist.get("cli split in place", 0) + 1
+                        if rc == 0:
+                            first2, n2 = self.check_parts(ip, "src", 52 + L + 9, cmd + ["&&"] + icmd)
+                            if first2:
+                                self.compare(first2, "inplace%d" % m, cmd + ["&&"] + icmd)
+                        else:
+                            after = {f: open(os.path.join(ip, f), "rb").read() for f in os.listdir(ip)}
+                            if any(after.get(f) != before[f] for f in before):
+                                self.fail("pna split in place failed (rc=%d) and left the input parts altered: %s" % (rc, sorted(f for f in before if after.get(f) != before[f])), cmd + ["&&"] + icmd, rc, out)
+                        shutil.rmtree(ip, ignore_errors=True)
             shutil.rmtree(d, ignore_errors=True)
         # the same output directory used twice with --overwrite, the second time with a smaller limit: every part of
         # the second run replaces a longer file of the first one and must still respect ITS limit
